@@ -55,6 +55,15 @@ def handle_instances(tier, prop):
     if prop == "C07":
         for d in ((0,) if quick else (0, 1, -1)):
             out.append(dict(id="handle-quad-d%s" % "m0p"[d + 1], kind="handle", E=1, dirs=[d], terms=[False], mode="arbitrary", quad=True, budget=b))
+    # the step contributes SEVERAL interpolants to a REAL DenseOutput (what Richardson wrappers produce), preceded by the piece of an
+    # earlier step: kink at t_prev + kappa*w, slope 1 before it and m2 after it; every evaluation must use the piece containing its time
+    if prop in ("C07", "C08"):
+        kms = [("1/4", "2")] if quick else [("1/4", "2"), ("3/4", "2"), ("1/2", "1/4"), ("1/4", "-1/2"), ("3/4", "-2")]
+        for kappa, m2 in kms:
+            for d in ((0, 1) if quick else (0, 1, -1)):
+                for mode in ("arbitrary", "exact"):
+                    out.append(dict(id="handle-pieces-k%s-m%s-d%s-%s" % (kappa.replace("/", "_"), m2.replace("/", "_"), "m0p"[d + 1], mode), kind="handle", E=1,
+                                    dirs=[d], terms=[False], mode=mode, pieces=dict(kappa=kappa, m2=m2), budget=b))
     return out
 
 
@@ -125,6 +134,23 @@ def scenario(c, inst):
     return EC.scenario(c, inst, {"C07"})
 
 
+def pieces_sol(c, ds, t_prev, w, kappa, m2):
+    """REAL DenseOutput holding three REAL cubic Hermite pieces of a continuous piecewise-linear trajectory: the previous step
+    [t_prev - w, t_prev] (slope 3), then the step under examination in two pieces: slope 1 up to t_k = t_prev + kappa*w, slope m2 after."""
+    from desolver.utilities.interpolation import CubicHermiteInterp
+    t_k = t_prev + kappa * w
+    t_next = t_prev + w
+    sol = ds.DenseOutput(None, None)
+
+    def lin(ta, tb, ya, slope):
+        one = c.array([1 + 0 * ta])
+        return CubicHermiteInterp(ta, tb, c.array([ya]), c.array([ya + slope * (tb - ta)]), slope * one, slope * one)
+    sol.add_interpolant(t_prev, lin(t_prev - w, t_prev, t_prev - 3 * w, 3))
+    sol.add_interpolant(t_k, lin(t_prev, t_k, t_prev, 1))
+    sol.add_interpolant(t_next, lin(t_k, t_next, t_k, m2))
+    return sol, t_k
+
+
 class LinearSol:
     """trajectory y(t) = [t] (1-D), with grad = [1]"""
 
@@ -161,6 +187,13 @@ def handle_scenario(c, inst, props):
         roots_true.append(r)
 
         r2 = None
+        if inst.get("pieces"):
+            # g = alpha*(y(t) - r) along the kinked trajectory y = t (before t_k), y = t_k + m2*(t - t_k) (after): the crossing
+            # on the first piece is at t = r, the one on the second piece at t = t_k + (r - t_k)/m2
+            from fractions import Fraction
+            kappa, m2 = Fraction(inst["pieces"]["kappa"]), Fraction(inst["pieces"]["m2"])
+            t_k_sym = t_prev + kappa * w
+            r2 = t_k_sym + (r - t_k_sym) / m2
         if inst.get("quad"):
             r2 = c.real("s%d" % i)
             c.assume(absval(c, r2) <= 512)
@@ -168,7 +201,7 @@ def handle_scenario(c, inst, props):
 
         def mk(al, r, r2=r2):
             def ev(t, y, **kw):
-                if r2 is not None:
+                if r2 is not None and inst.get("quad"):
                     return al * (y[0] - r) * (y[0] - r2)
                 return al * (y[0] - r)
             return ev
@@ -181,10 +214,35 @@ def handle_scenario(c, inst, props):
     events, is_terminal, direction, last_occ, requires_dstate = ds.prepare_events(evs, np.zeros(1))
     stub_log = {}
 
+    def crossings(i):
+        """true crossings of event i along the trajectory: (time, condition under which it exists, slope of g along t there)"""
+        if inst.get("pieces"):
+            r_ = roots_true[i]
+            r0_ = t_prev + (r_ - t_prev) / 3          # crossing on the piece of the PREVIOUS step (slope 3), at or before t_prev
+            return [(r_, (r_ - t_prev) * (t_k_sym - r_) >= 0, alphas[i]),
+                    (second_roots[i], (second_roots[i] - t_k_sym) * w >= 0, alphas[i] * m2),      # the last piece also answers queries beyond t_next
+                    (r0_, (r0_ - t_prev) * w <= 0, alphas[i] * 3)]
+        if inst.get("quad"):
+            return [(roots_true[i], True, alphas[i] * (roots_true[i] - second_roots[i])), (second_roots[i], True, alphas[i] * (second_roots[i] - roots_true[i]))]
+        return [(roots_true[i], True, alphas[i])]
+
     def root_stub(f, bounds, tol=None, verbose=False, return_interval=False, accepts_mask=False):
         rs, ss = [], []
         for i in range(E):
-            if inst["mode"] == "exact":
+            if inst["mode"] == "exact" and inst.get("pieces"):
+                # an exactly located crossing of the kinked trajectory: the first one (in piece order) that is strictly inside the step
+                # and crosses in a requested direction
+                hit = None
+                for (tc, valid, slope) in crossings(i):
+                    if bool(valid) and bool((tc - t_prev) * (t_next - tc) > 0) and (inst["dirs"][i] == 0 or bool(slope * w * inst["dirs"][i] > 0)):
+                        hit = tc
+                        break
+                if hit is not None:
+                    rs.append(hit)
+                    ss.append(True)
+                    stub_log.setdefault("exact_hit", {})[i] = hit
+                    continue
+            elif inst["mode"] == "exact":
                 inside = (roots_true[i] - t_prev) * (t_next - roots_true[i]) > 0
                 if bool(inside):
                     rs.append(roots_true[i])
@@ -198,6 +256,8 @@ def handle_scenario(c, inst, props):
         stub_log["roots"], stub_log["succ"] = rs, ss
         return c.array(rs), np.array(ss, dtype=bool)
     sol = LinearSol(c)
+    if inst.get("pieces"):
+        sol, t_k = pieces_sol(c, ds, t_prev, w, kappa, m2)
     with patched(ds, "root_finder", root_stub):
         st, r = run(ds.handle_events, (sol, t_prev, t_next), events, {}, direction, is_terminal, (requires_dstate,))
     if st != "ok":
@@ -215,14 +275,15 @@ def handle_scenario(c, inst, props):
         c.check("c07.A.returned_roots_are_finder_roots_in_bracket",
                 c.all([c.all([c.eq(roots[j], stub_log["roots"][i]), c.le(0, (roots[j] - t_prev) * (t_next - roots[j]), 64)]) for j, i in enumerate(active)]))
         def near_some_root(j, i):
-            cands = [c.le(absval(c, roots[j] - roots_true[i]), tol, 1)]
-            if inst.get("quad") and second_roots[i] is not None:
-                cands.append(c.le(absval(c, roots[j] - second_roots[i]), tol, 1))
-            return c.any(cands)
+            return c.any([c.all([valid, c.le(absval(c, roots[j] - tc), tol, 1)]) for (tc, valid, _s) in crossings(i)])
         c.check("c07.A.returned_root_within_sqrt_eps_of_true_root", c.all([near_some_root(j, i) for j, i in enumerate(active)]))
         okd = []
         for j, i in enumerate(active):
             d = inst["dirs"][i]
+            if inst.get("pieces"):
+                if d != 0:
+                    okd.append(c.any([c.all([valid, c.le(absval(c, roots[j] - tc), tol, 1), c.lt(0, slope * w * d)]) for (tc, valid, slope) in crossings(i)]))
+                continue
             if inst.get("quad"):
                 # slope of g along the trajectory at the nearer root: alpha*(r - s) at r, alpha*(s - r) at s
                 r_, s_ = roots_true[i], second_roots[i]
@@ -263,6 +324,10 @@ def handle_scenario(c, inst, props):
         # completeness: an exactly located, strictly interior crossing in a requested direction is returned, unless cut by an earlier terminal event
         term_roots = [roots[j] for j, i in enumerate(active) if inst["terms"][i]]
         for i in range(E):
+            if inst.get("pieces"):
+                if i in stub_log.get("exact_hit", {}):
+                    c.check("c08.A.located_interior_crossing_is_returned", i in active, info=dict(i=i, active=active, dirs=inst["dirs"], pieces=inst["pieces"]))
+                continue
             inside = bool((roots_true[i] - t_prev) * (t_next - roots_true[i]) > 0)
             d = inst["dirs"][i]
             compatible = d == 0 or bool(alphas[i] * w * d > 0)
